@@ -615,7 +615,43 @@ def tagread_loop(run, fx):
             run.held('TAGREAD', inst, fn.where(), 'all bytes zero-extended')
 
 
+def apiattr(run):
+    """the public declarations are part of the contract: a function that reads memory through a pointer argument must not be declared
+    `__attribute__((const))` (result depends on the argument VALUES only) -- an optimising client may then merge or hoist two calls
+    that pass the same pointer although the buffer changed in between (gr_str_to_tag(buf) after rewriting buf).  Every function
+    declaration of include/graphite2/*.h is parsed (clang) and its attributes inspected."""
+    import glob, json, os, subprocess
+    from . import facts as F
+    hdrs = sorted(glob.glob(os.path.join(F.REPO, 'include', 'graphite2', '*.h')))
+    n, bad = 0, []
+    for h in hdrs:
+        p = subprocess.run(['clang', '-x', 'c++', '-std=gnu++11', '-fsyntax-only', '-Xclang', '-ast-dump=json', '-I' + os.path.join(F.REPO, 'include'), h], capture_output=True, text=True)
+        if p.returncode != 0 or not p.stdout:
+            raise AnalysisBroken('public header %s does not parse: %s' % (h, p.stderr[-200:]))
+        doc = json.loads(p.stdout)
+        st = [doc]
+        while st:
+            x = st.pop()
+            if x.get('kind') == 'FunctionDecl' and (x.get('name') or '').startswith('gr_'):
+                n += 1
+                attrs = [a.get('kind') for a in x.get('inner', []) if a.get('kind', '').endswith('Attr')]
+                ptr = [a for a in x.get('inner', []) if a.get('kind') == 'ParmVarDecl' and '*' in (a.get('type', {}).get('qualType') or '')]
+                if 'ConstAttr' in attrs and ptr:
+                    bad.append((x['name'], os.path.basename(h), x.get('loc', {}).get('line')))
+            st.extend(c for c in x.get('inner', []) if isinstance(c, dict))
+    inst = 'no pointer-taking API function is declared __attribute__((const))'
+    if n < 60:
+        run.broken('TAGREAD', inst, 'only %d gr_* declarations found in %d public headers' % (n, len(hdrs)))
+    elif bad:
+        run.violated('TAGREAD', inst, 'include/graphite2/%s:%s' % (bad[0][1], bad[0][2]), '%s is declared __attribute__((const)) although it reads the memory its pointer argument points to: '
+                     'a client compiled with optimisation may reuse the result of an earlier call after the buffer has changed (the library binary is unchanged; the contract '
+                     'the header states is what breaks)' % bad[0][0])
+    else:
+        run.held('TAGREAD', inst, 'include/graphite2', '%d gr_* declarations in %d headers' % (n, len(hdrs)))
+
+
 def run(run):
+    apiattr(run)
     fx = run.facts('Q0')
     if _has_loop(fx.one('gr_tag_to_str')):
         tagwrite_loop(run, fx)
